@@ -237,7 +237,7 @@ func countFrames(frames []string, blocker string) int {
 	name := blockerFrameName(blocker)
 	n := 0
 	for _, f := range frames {
-		if blocker == "MACRO-BODY" {
+		if strings.HasPrefix(blocker, "MACRO-BODY") {
 			if strings.HasPrefix(f, name) {
 				n++
 			}
@@ -252,7 +252,7 @@ func restrictFrames(frames []string, blocker string) string {
 	name := blockerFrameName(blocker)
 	var out []string
 	for _, f := range frames {
-		if (blocker == "MACRO-BODY" && strings.HasPrefix(f, name)) || f == name {
+		if (strings.HasPrefix(blocker, "MACRO-BODY") && strings.HasPrefix(f, name)) || f == name {
 			out = append(out, f)
 		}
 	}
